@@ -144,8 +144,9 @@ def _bad_refs(rng, spec, want):
     return kind, refs
 
 
-def gen_history(rng, backend, big=False, multi=True):
-    fock = backend.startswith("fock")
+def gen_history(rng, backend, big=False, multi=True, portable=False):
+    """`portable`: a history every back end can run (at most 4 live modes, |data| <= MAXU, one-mode measurements)"""
+    fock = backend.startswith("fock") or portable
     cap = 4 if fock else (7 if big else 6)
     n0 = rng.choice([1, 1, 2, 2, 3, 3, 4] if not fock else [1, 1, 2, 2, 3, 3])
     spec = Spec(n0)
@@ -154,6 +155,8 @@ def gen_history(rng, backend, big=False, multi=True):
     ran_once = False
     measured = set()       # indices measured in the current segment (usable as parameter dependencies)
     for seg in range(nseg):
+        seg_changed = False    # an accepted New / Del in this segment (then the program cannot follow itself)
+        seg_acc = []           # accepted events of this segment
         steps = rng.randint(0, 10 if big else 8)
         if seg == 0 and rng.random() < 0.35:
             steps = max(steps, 1)
@@ -208,7 +211,7 @@ def gen_history(rng, backend, big=False, multi=True):
                         deps = [{"o": m} for m in rng.sample(okdeps, min(len(okdeps), rng.choice([1, 1, 2])))]
                     ev = {"e": "use", "ms": [_ref(rng, i)], "k": k, "deps": deps}
             elif x < 0.70:
-                k = 1 if (not fock or rng.random() < 0.6) else min(len(live), 2)
+                k = 1 if (not fock or portable or rng.random() < 0.6) else min(len(live), 2)
                 ev = {"e": "meas", "ms": [_ref(rng, i) for i in rng.sample(live, k)]}
             elif x < 0.93:
                 what = rng.choice(["use", "use", "del", "del", "meas", "use-dep"])
@@ -236,6 +239,9 @@ def gen_history(rng, backend, big=False, multi=True):
             ok, _ = spec.accepts(ev)
             if ok:
                 spec.apply(ev)
+                seg_acc.append(ev)
+                if ev["e"] in ("new", "del"):
+                    seg_changed = True
                 if ev["e"] == "meas":
                     # only a post-selected homodyne leaves a known value (0.25) in the RegRef; a later MeasureFock
                     # of the same mode overwrites it with a photon number
@@ -261,12 +267,28 @@ def gen_history(rng, backend, big=False, multi=True):
             probe.append({"t": "del", "ms": rng.sample(range(created + 1), k)})
         if len(live) >= 2:
             probe.append({"t": "del", "ms": rng.sample(live, rng.choice([1, 2]))})
+        # state(modes=[...]): SUBSYSTEM INDICES on every back end — live ones in any order, cyclic orders of >= 3,
+        # and requests naming a deleted or a never created index (must be refused)
         modes = []
+        dead = [i for i, d in enumerate(spec.rows) if d is None]
         if live:
-            for _ in range(2):
-                k = rng.randint(1, len(live))
-                # fock / gaussian: positions in the list of active modes; bosonic: mode indices
-                modes.append(rng.sample(live if backend == "bosonic" else range(len(live)), k))
+            modes.append(rng.sample(live, rng.randint(1, len(live))))
+            if len(live) >= 3:
+                cyc = sorted(rng.sample(live, rng.randint(3, len(live))))
+                r_ = rng.randrange(1, len(cyc))
+                cyc = cyc[r_:] + cyc[:r_]
+                modes.append(cyc if rng.random() < 0.6 else cyc[::-1])
+            elif len(live) == 2:
+                modes.append(sorted(live, reverse=True))
+        z = rng.random()
+        if z < 0.45 and dead:
+            bad = [rng.choice(dead)] + rng.sample(live, min(len(live), rng.choice([0, 1, 2])))
+            rng.shuffle(bad)
+            modes.append(bad)
+        elif z < 0.7:
+            bad = [created + rng.randint(0, 2)] + rng.sample(live, min(len(live), rng.choice([0, 1])))
+            rng.shuffle(bad)
+            modes.append(bad)
         evs.append({"e": "end", "probe": probe, "modes": modes})
         ran_once = True
         measured = set()
@@ -275,7 +297,58 @@ def gen_history(rng, backend, big=False, multi=True):
         if seg == nseg - 1:
             break
         y = rng.random()
-        if y > 0.92:
+        if 0.70 < y <= 0.80:
+            # the program object that was just run, once more (a repeated fragment): it can follow itself only if it
+            # neither created nor deleted a mode
+            ok_rerun = True
+            if not seg_changed:
+                # the segment's effect is applied once more
+                trial = copy.deepcopy(spec)
+                for x_ in seg_acc:
+                    trial.apply(x_)
+                if fock and any(d is not None and abs(d) > MAXU for d in trial.rows):
+                    ok_rerun = False        # would leave the range the Fock cutoff represents faithfully
+                else:
+                    spec = trial
+            if ok_rerun:
+                evs.append({"e": "rerun", "follows": not seg_changed})
+        elif 0.80 < y <= 0.92:
+            # Program(P) for an INDEPENDENTLY built P (never run) with the same active indices as the register now
+            created = len(spec.rows)
+            live = spec.live()
+            deadl = [i for i in range(created) if spec.rows[i] is None]
+            kind = rng.choice(["match", "extra", "extra", "short"])
+            if kind == "short":
+                n = (max(live) + 1) if live else 1
+                if n >= created:
+                    kind = "extra"
+                else:
+                    dels = [i for i in range(n) if i not in live]
+            if kind == "extra":
+                x = rng.choice([1, 1, 2])
+                n, dels = created + x, deadl + list(range(created, created + x))
+            if kind == "match":
+                n, dels = created, deadl
+            rng.shuffle(dels)
+            evs.append({"e": "alien", "n": n, "dels": dels, "kind": kind})
+            if kind != "match":
+                # the successor creates a mode (the retired / shifted index would show) — the engine has to refuse it
+                rows = [None if i in dels else (spec.rows[i] if i < created and spec.rows[i] is not None else 0) for i in range(n)]
+                spec = Spec(0)
+                spec.rows = rows
+                for _ in range(rng.randint(1, 3)):
+                    lv = spec.live()
+                    if rng.random() < 0.6 or not lv:
+                        ev = {"e": "new", "n": rng.choice([1, 1, 2])}
+                    else:
+                        ev = {"e": "use", "ms": [{"o": rng.choice(lv)}], "k": 0, "deps": []}
+                    spec.apply(ev)
+                    evs.append(ev)
+                if not any(e_["e"] == "new" for e_ in evs[-3:]):
+                    evs.append({"e": "new", "n": 1})
+                evs.append({"e": "end", "probe": [], "modes": [], "mismatch": True})
+                break
+        elif y > 0.92:
             # eng.reset() while the user goes on with Program(prev): runs on a new simulator if the register has no
             # holes, is refused otherwise
             evs.append({"e": "resetkeep"})
@@ -457,7 +530,13 @@ def run_real(sf, hist):
             try:
                 res = eng.run(prog)
             except Exception as ex:  # noqa: BLE001
-                out.append(dict(r=type(ex).__name__, msg=str(ex)[:200], **prog_obs(prog)))
+                o = dict(r=type(ex).__name__, msg=str(ex)[:200], **prog_obs(prog))
+                try:     # a refused program must leave the simulator as it was
+                    o["gm_after"] = [int(x) for x in eng.backend.get_modes()]
+                    o["state_after"] = state_obs(eng.backend.state(), fock)
+                except Exception as ex2:  # noqa: BLE001
+                    o["gm_after"] = {"err": type(ex2).__name__}
+                out.append(o)
                 break
             o = dict(r="ok", ranReg=ran_reg)
             o.update(backend_obs(eng, fock))
@@ -508,6 +587,34 @@ def run_real(sf, hist):
             prog = sf.Program(ev["n"])
             init_snap = [[int(r.ind), bool(r.active)] for r in prog.init_reg_refs.values()]
             o.update(prog_obs(prog))
+            out.append(o)
+        elif e == "alien":
+            try:
+                P = sf.Program(ev["n"])
+                if ev["dels"]:
+                    with P.context:
+                        ops.Del | tuple(int(i) for i in ev["dels"])
+                prog = sf.Program(P)
+                init_snap = [[int(r.ind), bool(r.active)] for r in prog.init_reg_refs.values()]
+                out.append(dict(r="ok", **prog_obs(prog)))
+            except Exception as ex:  # noqa: BLE001
+                out.append(dict(r=type(ex).__name__, **prog_obs(prog)))
+        elif e == "rerun":
+            try:
+                res = eng.run(last_run)
+                o = dict(r="ok", **prog_obs(prog))
+                o.update(backend_obs(eng, fock))
+                try:
+                    o["state"] = state_obs(res.state, fock)
+                except Exception as ex:  # noqa: BLE001
+                    o["state"] = {"err": type(ex).__name__, "msg": str(ex)[:200]}
+            except Exception as ex:  # noqa: BLE001
+                o = dict(r=type(ex).__name__, msg=str(ex)[:200])
+                try:
+                    o["gm_after"] = [int(x) for x in eng.backend.get_modes()]
+                    o["state_after"] = state_obs(eng.backend.state(), fock)
+                except Exception as ex2:  # noqa: BLE001
+                    o["gm_after"] = {"err": type(ex2).__name__}
             out.append(o)
         elif e == "resetkeep":
             eng.reset()
